@@ -580,6 +580,7 @@ func matcherValueKey(st *pstate, ev *Event) string {
 // calling Elem on what it was given) looks through *every* level: whatever it returns is not a pointer any more (nor an
 // interface, for values). An `if` where the loop was strips one level only, and a **T element finds no comparator.
 func checkDerefHelpers(r *Run, prog *Program, pfx string) {
+	derefPostcondition(prog) // the same decision, without obligations, is what the kind analysis relies on for calls it cannot interpret in place
 	ke := &kindEnv{prog: prog}
 	n := 0
 	for _, fn := range prog.ModuleFuncs() {
@@ -620,13 +621,35 @@ func checkDerefHelpers(r *Run, prog *Program, pfx string) {
 			if sm.Ret == nil || len(sm.Results) != 1 {
 				continue
 			}
+			if cf, _ := calleeOfSym(sm.Results[0]); cf == fn {
+				continue // the helper written recursively: what the inner call returns is, by induction, already stripped
+			}
 			k := ke.kinds(sm.St, sm.Results[0])
 			if k&forbidden != 0 {
 				ok = false
 				why = fmt.Sprintf("%s may return something of kind %s (%s) [path %s]", fn.Name(), k&forbidden, shortKey(sm.Results[0]), strings.Join(sm.St.trail, " "))
 			}
 		}
+		if ok {
+			derefPost[fn] = forbidden
+		}
 		r.Check(pfx+".element-transparency", "deref:"+fn.Name(), prog.pos(fn.Pos()), ok, "a helper that looks through pointers must look through every level: "+why)
 	}
 	r.Check(pfx+".element-transparency", "deref:census", prog.pos(prog.BexprSSA.Func("init").Pos()), n >= 1, "no pointer-stripping helper found")
+}
+
+// derefPost: the pointer-stripping helpers whose postcondition has been established (result is never of these kinds).
+var derefPost = map[*ssa.Function]KindSet{}
+var derefPostDone = map[*Program]bool{}
+
+// derefPostcondition decides, once per program, which helpers of the shape checked by checkDerefHelpers strip every
+// level; the kind analysis uses the result for calls to such a helper that is written recursively (and therefore not
+// interpreted in place).
+func derefPostcondition(prog *Program) {
+	if derefPostDone[prog] {
+		return
+	}
+	derefPostDone[prog] = true
+	sub := NewRun("C02", "quick")
+	checkDerefHelpers(sub, prog, "c02")
 }
